@@ -256,11 +256,12 @@ class StmtMixin:
         frozen_locs = set()       # fields of self / the factory the body assigns (whether or not anything is known about them)
         body_paths = []
         extra = {}
-        for attempt in range(6):
+        mirrors = {}          # local name -> field of self whose current value it holds at the head of every iteration
+        for attempt in range(8):
             base = st.fork()
             base.events = []
             for nm in names:
-                base.env[nm] = ("unk", "%s@loop%d" % (nm, loop_id))
+                base.env[nm] = ("attr", SELF, mirrors[nm]) if nm in mirrors else ("unk", "%s@loop%d" % (nm, loop_id))
             for k in touched_heap:
                 base.heap.pop(k, None)
                 for fk in [fk for fk in base.facts if mentions(fk, ("attr",) + k)]:
@@ -288,8 +289,22 @@ class StmtMixin:
                         th.add((SELF, "state"))
             fl = {k for k in th if k[0] in (SELF, FAC)}
             th = {k for k in th if k in st.heap or any(mentions(fk, ("attr",) + k) for fk in st.facts)}
-            if th <= touched_heap and tr <= touched_regs and fl <= frozen_locs:
+            # a local that names the current value of a field of self - bound to it before the loop and again, after whatever the
+            # iteration stored into the field, on every path that goes round (buf = self._buffer ... self._buffer = buf = buf[n:]):
+            # at the head of an iteration it is that field, not an unknown
+            new_mirrors = {}
+            for nm in names:
+                pre = st.env.get(nm)
+                for (o_, f_) in [k for k in fl if k[0] == SELF]:
+                    cur0 = st.heap.get((SELF, f_), ("attr", SELF, f_))
+                    if pre is None or pre not in (cur0, ("attr", SELF, f_)):
+                        continue
+                    going = [p_ for p_ in body_paths if p_.exit is None or p_.exit[0] == "continue"]
+                    if going and all(p_.st is not None and p_.st.env.get(nm) == p_.st.heap.get((SELF, f_), ("attr", SELF, f_)) for p_ in going):
+                        new_mirrors[nm] = f_
+            if th <= touched_heap and tr <= touched_regs and fl <= frozen_locs and new_mirrors == mirrors:
                 break
+            mirrors = new_mirrors
             touched_heap |= th
             touched_regs |= tr
             frozen_locs |= fl
@@ -310,7 +325,7 @@ class StmtMixin:
             return nm not in st.env or (isinstance(v0, tuple) and v0[:1] == ("mu",))
         unbound_before = {nm for nm in names if unbound(nm)}
         for nm in names:
-            v = ("unk", "%s@loop%d" % (nm, loop_id))
+            v = ("attr", SELF, mirrors[nm]) if nm in mirrors else ("unk", "%s@loop%d" % (nm, loop_id))
             st.env[nm] = ("mu", v) if (may_skip and nm in unbound_before) else v
         target_names = []
         if isinstance(n, ast.For):
@@ -683,7 +698,16 @@ class StmtMixin:
             return True
         names = []
         for e in (h.type.elts if isinstance(h.type, ast.Tuple) else [h.type]):
-            if isinstance(e, ast.Name):
+            if isinstance(e, ast.Name) and e.id in st.env:
+                # the exception class handed in as a value (def attempt(catch, f): try: .. except catch ..)
+                v = st.env[e.id]
+                if isinstance(v, tuple) and v[:1] == ("cls",):
+                    names.append(v[1].qual)
+                elif isinstance(v, tuple) and v[:1] == ("builtin",) and v[1] in BUILTIN_EXC:
+                    names.append(v[1])
+                else:
+                    raise AnalysisError("except clause over a value that is not a known exception class at %s:%d" % (fx.func.file, h.lineno))
+            elif isinstance(e, ast.Name):
                 r = self.prog.resolve(fx.module, e.id)
                 if r and r[0] == "class":
                     names.append(r[1].qual)
